@@ -107,6 +107,8 @@ PROBES = {
  "temporary receiver of natives": PRE + "fn mk() { return [%s, (3, [4])]; } print(mk().iter().next()); print(mk().pop()); print(mk().push(junk())); var m = {1: %s}; print({1: %s}.values()); print({(1, (2, 3)): 1}.keys()); print({1: %s}.items());" % (WIT, WIT, WIT, WIT),
  "temporary in string operations": "fn s() { return \"ab\" + \"cd\"; } print(s()[1..3] + s()); print((s() + s()).split(\"c\")); print(\"${s()}${[s()]}\"); print(String.from([s(), (1, [2])])); print(s().replace(\"b\", s()));",
  "temporary closure in fiber and bound method": PRE + "fn mk() { var w = %s; return || w; } print(Fiber.new(mk()).call()); #[constructor(new)] class C { fn m(self) { return self.f; } } fn mi() { var i = C.new(); i.f = %s; return i; } print(mi().m()); var bm = mi().m; junk(); print(bm());" % (WIT, WIT),
+ "closure escaping a run that died": [PRE + "var g = nil; fn f() { var x = %s; g = || x; throw 1; } f();" % WIT, "junk(); junk(); print(g()); print(g()[1]);"],
+ "closure escaping a fiber that died": [PRE + "var g = nil; fn f() { var x = %s; g = || x; throw 1; } Fiber.new(f).call();" % WIT, "junk(); junk(); print(g()); print(g()[1]);"],
  "string pieces": "var parts = \"a,b,c\".split(\",\"); var j = [1]; var k = [2]; print(parts); print(parts[1] + parts[2]);",
 }
 PROBE_MODULES = {"m1": "var w = %s; fn f() { return w[0]; }" % WIT}
@@ -147,8 +149,12 @@ def main(tier, seed):
     cases = []
     for name, src in PROBES.items():
         for gc in ("never", "always"):
-            cases.append({"id": ["probe", name, gc], "main": src, "modules": PROBE_MODULES, "gc": gc,
-                          "quarantine": True, "events": 1})
+            c = {"id": ["probe", name, gc], "modules": PROBE_MODULES, "gc": gc, "quarantine": True, "events": 1}
+            if isinstance(src, list):
+                c["snippets"] = [{"src": x} for x in src]      # several runs on one interpreter
+            else:
+                c["main"] = src
+            cases.append(c)
     # ---- 4. whole programs under schedules: the repository's scripts ----------------------------
     scheds = ["never", "always"] + (["every:2:1", "every:3:0", "every:7:3", "every:5:4"] if tier == "thorough" else ["every:3:1"])
     for name, src, exp in items:
@@ -190,7 +196,7 @@ def main(tier, seed):
                               {"case": c, "events": uafs})
                 continue
             run = r["runs"][0]
-            obs = (vlib.norm_addr(json.dumps(vlib.run_output_lines(run))), run.get("ok"), run.get("kind"))
+            obs = (vlib.norm_addr(json.dumps([vlib.run_output_lines(x) for x in r["runs"]])), run.get("ok"), run.get("kind"))
             if gc == "never":
                 base[key] = obs
                 if kind == "corpus":
